@@ -280,14 +280,35 @@ theorem evalI_congr (S : ISem) (allowed : List Atom) (e : IExpr) (h : closedOver
     simp only [closedOver, Bool.and_eq_true] at h
     simp [evalI, iha h.1, ihb h.2]
 
-/-- Every filled memo cell holds its specification evaluated at some environment that has the
-stored tag as key. -/
-def MemoInv (S : ISem) (p : IProg) (cells : Nat → Option (List Int × Int)) : Prop :=
-  ∀ c tag val, cells c = some (tag, val) →
+/-- Every entry of every memo cell holds the cell's specification evaluated at some environment that
+has the entry's tag as key. -/
+def MemoInv (S : ISem) (p : IProg) (cells : Nat → Entries) : Prop :=
+  ∀ c tag val, (tag, val) ∈ cells c →
     ∃ ρ' : Atom → Int, (p.keyAtoms c).map ρ' = tag ∧ val = evalI S ρ' 0 (fun _ => 0) (p.spec c)
 
-theorem memoInv_fresh (S : ISem) (p : IProg) : MemoInv S p (fun _ => none) := by
+theorem memoInv_fresh (S : ISem) (p : IProg) : MemoInv S p (fun _ => []) := by
   intro c tag val h; simp at h
+
+theorem lookup_some_mem {tag : List Int} {l : Entries} {v : Int} (h : lookup tag l = some v) : (tag, v) ∈ l := by
+  induction l with
+  | nil => simp [lookup] at h
+  | cons e rest ih =>
+    obtain ⟨t, w⟩ := e
+    simp only [lookup] at h
+    split at h
+    · rename_i ht; simp only [Option.some.injEq] at h; subst h; subst ht; simp
+    · exact List.mem_cons_of_mem _ (ih h)
+
+theorem lookup_cons_self (tag : List Int) (v : Int) (l : Entries) : lookup tag ((tag, v) :: l) = some v := by
+  simp [lookup]
+
+theorem mem_insertEntry {cap : Nat} {tag : List Int} {v : Int} {l : Entries} {e : List Int × Int}
+    (h : e ∈ insertEntry cap tag v l) : e = (tag, v) ∨ e ∈ l := by
+  have h1 := List.mem_of_mem_take h
+  simp only [List.mem_cons, List.mem_filter] at h1
+  rcases h1 with h1 | h1
+  · exact Or.inl h1
+  · exact Or.inr h1.1
 
 /-- Under the invariant a keyed read yields the specification at the *current* key, hit or miss. -/
 theorem stepI_memoRead (S : ISem) (p : IProg) (ρ : Atom → Int) (fld : Int) (c : IRun) (r k : Nat)
@@ -295,19 +316,13 @@ theorem stepI_memoRead (S : ISem) (p : IProg) (ρ : Atom → Int) (fld : Int) (c
     stepI S p ρ fld c (.memoRead r k (p.spec k))
       = { c with loc := upd c.loc r (evalI S ρ fld c.loc (p.spec k)) } := by
   simp only [stepI]
-  cases hc : c.cells k with
+  cases hc : lookup ((p.keyAtoms k).map ρ) (c.cells k) with
   | none => rfl
-  | some tv =>
-    obtain ⟨tag, val⟩ := tv
+  | some val =>
     simp only
-    split
-    · rename_i htag
-      obtain ⟨ρ', hmap, hval⟩ := hinv k tag val hc
-      have hagree : ∀ a ∈ p.keyAtoms k, ρ' a = ρ a := by
-        have := hmap.trans htag
-        exact List.map_inj_left.mp this
-      rw [hval, evalI_congr S (p.keyAtoms k) (p.spec k) hcl ρ' ρ hagree 0 fld (fun _ => 0) c.loc]
-    · rfl
+    obtain ⟨ρ', hmap, hval⟩ := hinv k _ val (lookup_some_mem hc)
+    have hagree : ∀ a ∈ p.keyAtoms k, ρ' a = ρ a := List.map_inj_left.mp hmap
+    rw [hval, evalI_congr S (p.keyAtoms k) (p.spec k) hcl ρ' ρ hagree 0 fld (fun _ => 0) c.loc]
 
 /-- Two runs of an accepted body from stores that both satisfy the invariant, with equal locals and
 equal contents of the scratch buffers written so far, end with equal locals, and both stores still
@@ -342,10 +357,12 @@ theorem sim (S : ISem) (p : IProg) (ρ : Atom → Int) (fld : Int) (body : List 
         split at hcell
         · rename_i hk
           subst hk
-          simp only [Option.some.injEq, Prod.mk.injEq] at hcell
-          refine ⟨ρ, hcell.1, ?_⟩
-          rw [← hcell.2]
-          exact evalI_congr S (p.keyAtoms k') (p.spec k') hcl ρ ρ (fun _ _ => rfl) fld 0 c.loc (fun _ => 0)
+          rcases mem_insertEntry hcell with hnew | hold
+          · simp only [Prod.mk.injEq] at hnew
+            refine ⟨ρ, hnew.1.symm, ?_⟩
+            rw [hnew.2]
+            exact evalI_congr S (p.keyAtoms k') (p.spec k') hcl ρ ρ (fun _ _ => rfl) fld 0 c.loc (fun _ => 0)
+          · exact hc k' tag val hold
         · exact hc k' tag val hcell
       apply ih w _ _ hrest
       · simpa [stepI] using hl
